@@ -135,10 +135,14 @@ def _task(arg):
         bid = {'C': 'C1', 'D': 'D1', 'H': 'H1', 'S': 'S1', 'NT': 'NT1'}[trump]
         con = f._construct(repo.cls('Contract'), [], {'final_bid': B[bid], 'x': False, 'xx': False, 'vul': V['NONE'], 'declarer': P[declarer]})
         card_of = {cid(c): c for s in SEATS for c in hands_dv[s]}
+
+        def fresh(c):
+            # an equal card held in ANOTHER object, as every card is that arrives as text (identity must not stand in for equality)
+            return DV(c.cls, dict(c.fields))
         orc = Oracle(trump if trump != 'NT' else 'NT', declarer, {s: {cid(c) for c in hands_dv[s]} for s in SEATS})
         H = f._construct(repo.cls('Hands'), [], {'north_hand': set(hands_dv['N']), 'east_hand': set(hands_dv['E']), 'south_hand': set(hands_dv['S']), 'west_hand': set(hands_dv['W'])})
         full = f._construct(repo.cls('PlayingPhaseWithHands'), [], {'contract': con, 'hands': H})
-        obs_hand = {s: set(hands_dv[s]) for s in SEATS}
+        obs_hand = {s: {fresh(c) for c in hands_dv[s]} for s in SEATS}
         obs_dummy = {s: None for s in SEATS}
         obs = {s: f._construct(repo.cls('ObservedPlayingPhase'), [], {'contract': con, 'player': P[s], 'hand': obs_hand[s]}) for s in SEATS}
         ctx0 = f'deal "{deal_name}", {trump} by {declarer}, strategy {strategy}'
@@ -187,7 +191,7 @@ def _task(arg):
                     before = (_observe(f, e2, P), {s: {cid(x) for x in f.call_method(e2.fields['hands'], '__getitem__', P[s])} for s in SEATS})
                     try:
                         f.steps = 0
-                        f.call_method(e2, 'play_card_by_player', card_of[c], P[who])
+                        f.call_method(e2, 'play_card_by_player', fresh(card_of[c]), P[who])
                         fail('C05', f'{what} is accepted', f'{where}: play of {show(c)} by {who} ({what}) is accepted by the table manager\'s engine')
                     except FoldRaise:
                         after = (_observe(f, e2, P), {s: {cid(x) for x in f.call_method(e2.fields['hands'], '__getitem__', P[s])} for s in SEATS})
@@ -198,14 +202,14 @@ def _task(arg):
             n_steps += 1
             try:
                 f.steps = 0
-                f.call_method(full, 'play_card_by_player', card_of[card], P[seat])
+                f.call_method(full, 'play_card_by_player', fresh(card_of[card]), P[seat])
             except FoldRaise as r:
                 fail('C05', 'a held card played in turn is refused', f'{where}: {show(card)} held by {seat} is refused by the table manager\'s engine ({r.kind}: {str(r)[:60]})')
                 break
             for s in SEATS:
                 try:
                     f.steps = 0
-                    f.call_method(obs[s], 'play_card_by_player', card_of[card], P[seat])
+                    f.call_method(obs[s], 'play_card_by_player', fresh(card_of[card]), P[seat])
                 except FoldRaise as r:
                     fail('C11', 'a replica refuses a play the table manager accepts', f'{where}: {show(card)} by {seat} is accepted by the table manager\'s engine, the replica of {s} refuses it ({r.kind}: {str(r)[:60]})')
             was_lead = step == 0
@@ -213,7 +217,7 @@ def _task(arg):
             if was_lead:
                 for s in SEATS:
                     if s != orc.dummy:
-                        obs_dummy[s] = set(hands_dv[orc.dummy])
+                        obs_dummy[s] = {fresh(c) for c in hands_dv[orc.dummy]}
                         f.call_method(obs[s], 'set_dummy_hand', obs_dummy[s])
             # ---- C04: the table manager's engine against the oracle
             st = _observe(f, full, P)
